@@ -16,7 +16,8 @@ REPO = os.environ.get("VERIF_REPO", "/repo")
 CACHE = os.path.join(VERIF, ".cache")
 COQ = os.path.join(VERIF, "coq")
 HARNESS = os.path.join(VERIF, "harness")
-TARGET_DIR = os.path.join(CACHE, "harness-target")
+TARGET_DIR = os.path.join(CACHE, "harness-target" if REPO == "/repo" else
+                          "harness-target-" + hashlib.sha256(REPO.encode()).hexdigest()[:8])
 MFI = os.path.join(TARGET_DIR, "debug", "mfi")
 DRIVER_DIR = os.path.join(CACHE, "driver")
 DRIVER = os.path.join(DRIVER_DIR, "driver")
